@@ -141,6 +141,9 @@ func check(cfg *Config, prop string, writeEvidence bool) int {
 		if h.Tier == "off" && cfg.OnlyH != h.Name && !strings.HasSuffix(cfg.OnlyH, "*") {
 			continue
 		}
+		if v, ok := h.Opts["unwind_"+cfg.Tier]; ok {
+			h.Unwind, _ = strconv.Atoi(v)
+		}
 		if v, ok := h.Opts["timeout_"+cfg.Tier]; ok {
 			n, _ := strconv.Atoi(v)
 			h.OblTO = time.Duration(n) * time.Second
